@@ -12,12 +12,13 @@ demo=$(ls $D/*_test.go | head -1)
 pkgdir=tests; grep -q "^package deploy" $demo && pkgdir=deploy
 cp $demo $WT/$pkgdir/
 name=$(grep -oE "func (Test[A-Za-z0-9_]+)" $demo | head -1 | awk '{print $2}')
-echo "== demo $name on clean tree"; (cd $WT/$pkgdir && go test -vet=off -count=1 -run "^$name\$" . 2>&1 | grep -E "^(ok|FAIL|---)" | head -5)
+echo "== demo $name on clean tree"; (cd $WT/$pkgdir && go test -vet=off -count=1 -run "^$name\$" . 2>&1 | grep -a -E "^(ok|FAIL|---)" | head -5)
 (cd $WT && git apply $D/patch.diff) || { echo "PATCH DOES NOT APPLY"; }
-echo "== demo with patch"; (cd $WT/$pkgdir && go test -vet=off -count=1 -run "^$name\$" . 2>&1 | grep -E "^(ok|FAIL|---)" | head -5)
+echo "== demo with patch"; (cd $WT/$pkgdir && go test -vet=off -count=1 -run "^$name\$" . 2>&1 | grep -a -E "^(ok|FAIL|---)" | head -5)
 rm $WT/$pkgdir/$(basename $demo)
-echo "== baseline with patch"; (cd $WT && go build ./... && go test -vet=off -count=1 ./... 2>&1 | grep -E "^(FAIL|---|ok.*tests)" | head -5)
+echo "== baseline with patch"; (cd $WT && go build ./... && go test -vet=off -count=1 ./... 2>&1 | grep -a -E "^(FAIL|---|ok.*tests)" | head -5)
 git -C /repo worktree remove --force $WT
+[ -n "${SKIP_CHECKS:-}" ] && exit 0
 echo "== checks on /repo with patch"
 git -C /repo apply $D/patch.diff && /verif/bin/nfsverif check $CHECKS 2>&1 | grep -E "^(VIOLATED|UNDECIDED|KNOWN|C[0-9]+ tier)" | cut -c1-260
 git -C /repo checkout -- . ; git -C /repo status --short | head -3
